@@ -130,6 +130,39 @@ func (w *W) c03CheckDoc(doc []byte, lits [][]byte, exp []ref.Value, cfg Config, 
 		if k != len(lits) {
 			return fmt.Errorf("%d numbers on the tape, want %d", k, len(lits))
 		}
+		if where == "array" {
+			// the same numbers through Array.Iter + AdvanceIter into one long-lived destination iterator
+			it := pj.Iter()
+			it.AdvanceInto()
+			if it.AdvanceInto() != simdjson.TagArrayStart {
+				return fmt.Errorf("root is not an array")
+			}
+			a, err := it.Array(nil)
+			if err != nil {
+				return err
+			}
+			ai := a.Iter()
+			for k := 0; ; k++ {
+				t, err := ai.AdvanceIter(&c03ArrElem)
+				if err != nil {
+					return err
+				}
+				if t == simdjson.TypeNone {
+					if k != len(lits) {
+						return fmt.Errorf("%d elements through AdvanceIter, want %d", k, len(lits))
+					}
+					break
+				}
+				if k >= len(lits) {
+					return fmt.Errorf("more elements than literals")
+				}
+				lit := lits[k]
+				w.Eval(1)
+				c03JudgeNumber(&c03ArrElem, t, exp[k], func(what, detail string) {
+					w.Violation("C03/"+what+"/AdvanceIter/"+q(lit), fmt.Sprintf("literal %s (array element read through AdvanceIter into a recycled iterator, %s): %s", q(lit), cfg, detail), &ev.Case{Gen: "c03-" + where, Input: c03Doc([][]byte{lit}, where, 0)})
+				})
+			}
+		}
 		if where == "object" {
 			// the same numbers through Object.NextElementBytes into one long-lived destination iterator
 			// (what it held before: the previous member, the previous document)
@@ -208,7 +241,7 @@ func c03JudgeNumber(it *simdjson.Iter, typ simdjson.Type, e ref.Value, bad func(
 	}
 }
 
-var c03Elem simdjson.Iter
+var c03Elem, c03ArrElem simdjson.Iter
 
 // c03Gaps: how many white-space bytes follow a literal before the next structural character
 // (layout > 0): none, a few, around the longest integer (20 bytes) and a SIMD block and more.
